@@ -872,7 +872,12 @@ func callSigs(calls []TCall, restrict bool) []string {
 type C20Mix struct {
 	Diff *Diff `json:"diff,omitempty"`
 	Join *Join `json:"join,omitempty"`
+	// Probe: the typed client of one package driven over client-go's REST layer
+	// with a scripted transport (the last clause of C20)
+	Probe *ClientProbe `json:"probe,omitempty"`
 }
+
+func AllKindsOf() []string { return world.AllKinds }
 
 var generatedJoins = []string{"service", "rc", "rs", "deployment", "daemonset", "statefulset", "job", "ingress-service"}
 
@@ -887,12 +892,17 @@ func init() {
 				}
 				return &C20Mix{Join: j}
 			}
+			if g.Idx%16 == 14 {
+				return &C20Mix{Probe: genClientProbe(g)}
+			}
 			return &C20Mix{Diff: genC20(g).(*Diff)}
 		},
 		New: func() interface{} { return &C20Mix{} },
 		Run: func(sci interface{}) {
 			m := sci.(*C20Mix)
 			switch {
+			case m.Probe != nil:
+				runClientProbe(m.Probe)
 			case m.Join != nil:
 				runJoin(m.Join)
 			case m.Diff != nil:
@@ -901,6 +911,9 @@ func init() {
 		},
 		Sim: func(sci interface{}) SimCfg {
 			m := sci.(*C20Mix)
+			if m.Probe != nil {
+				return m.Probe.Sim
+			}
 			if m.Join != nil {
 				return m.Join.Sim
 			}
@@ -911,6 +924,9 @@ func init() {
 		},
 		Describe: func(sci interface{}) string {
 			m := sci.(*C20Mix)
+			if m.Probe != nil {
+				return fmt.Sprintf("typed client of %s, namespace %q, %d calls over a scripted transport", m.Probe.Kind, m.Probe.NS, len(m.Probe.Ops))
+			}
 			if m.Join != nil {
 				return "generated join: " + describeJoin(m.Join)
 			}
@@ -919,6 +935,9 @@ func init() {
 		},
 		Nontrivial: func(sci interface{}, res *detsim.Result) bool {
 			m := sci.(*C20Mix)
+			if m.Probe != nil {
+				return len(m.Probe.Ops) > 0
+			}
 			if m.Join != nil {
 				return len(m.Join.Acts) > 0 && res.Contended > 10
 			}
